@@ -6,7 +6,13 @@ Tie to /repo:
       proves next = 32 serial LFSR steps and value = next 32 keystream bits for all 2^16 states;
   (b) `ScramblerLFSR`, `Scrambler`, `Descrambler` and a Scrambler->Descrambler chain are co-simulated
       cycle by cycle against the Lean model, with a monitor that recomputes the keystream with the
-      independent bit-serial Python LFSR (harness/common/usbref.py: usb3_lfsr_bytes).
+      independent bit-serial Python LFSR (harness/common/usbref.py: usb3_lfsr_bytes);
+  (c) the wiring in physical/layer.py: the transmit half of the real `USB3PhysicalLayer` (Scrambler ->
+      CTCSkipInserter -> PHY, hold = tx_ctc.sending_skip) is co-simulated against the composed Lean model
+      (`Model/Usb3/PhyTx.lean`) and watched by a far-end monitor that descrambles the PHY's tx words with the
+      reference LFSR (no advance over SKP words, restart after COM) and requires the link layer's symbols; the
+      receive half (CTCSkipRemover -> RxWordAligner -> Descrambler -> RxPacketAligner) is fed a reference-scrambled
+      stream with SKP symbols inserted at arbitrary symbol positions and must return the original words.
 """
 from harness.common.framework import Case
 from harness.common.rng import Rng
@@ -15,7 +21,7 @@ from harness.common import usbref as U
 from harness.translate import affine
 
 PROP = "C31"
-LEAN_MODULES = ["LunaVerif.Core.XorAlg", "LunaVerif.Props.C31"]
+LEAN_MODULES = ["LunaVerif.Core.XorAlg", "LunaVerif.Props.C31", "LunaVerif.Props.C31Phy"]
 DRIVER = "Driver/C31.lean"
 TRANSLATORS = [affine.translate_lfsr]
 REQUIRED_THEOREMS = [
@@ -23,17 +29,37 @@ REQUIRED_THEOREMS = [
     "lfsr_next_generated_eq_serial32", "lfsr_value_generated_eq_keystream", "keyBytes_eq_keystream",
     "step_output", "ctrl_symbols_pass", "advance_only_on_transfer", "restart_after_com", "restart_on_clear",
     "lfsr_position", "pair_step", "descramble_scramble_id", "lfsr_default_init_is_spec",
+    # the transmit wiring of USB3PhysicalLayer (Props/C31Phy.lean)
+    "hold_is_sending_skip", "pins_next_cycle", "reg_held_over_skp", "reg_moves_with_word", "phy_tx_descrambles",
 ]
 RULE = ("cases = module (ScramblerLFSR / Scrambler / Descrambler / Scrambler->Descrambler chain) x initial_value x "
         "stimulus; words mix data and control symbols, COM (K28.5) is placed in every symbol position, as a data "
         "byte 0xBC without the K flag, and in invalid words; hold bursts (SKP insertion), ready stalls, idle cycles, "
-        "enable toggling and clear pulses are interleaved")
+        "enable toggling and clear pulses are interleaved.  Plus the real USB3PhysicalLayer with a PIPEInterface: "
+        "transmit half (kind phytx, co-simulated against the composed Lean model and watched by a far-end "
+        "descrambling monitor) x traffic mode (C33's link-layer grammar: bursts, mostly-idle, boundary, saturated, "
+        "training; skp-mix: non-idle stretches around 177 words and its multiples followed by short idle/data/K/COM "
+        "mixes so that SKP words land at every alignment and are followed by every kind of word; enable-toggle; "
+        "electrical-idle lead-in and pulses) x scrambling on/off; receive half (kind phyrx, monitor only): a far-end "
+        "word stream scrambled with the reference LFSR, SKP symbols inserted as whole words / ordered sets at any "
+        "symbol offset / runs of 1-8 / densely / not at all")
 ASSUMPTIONS = [
     "descramble_scramble_id: both instances start from the same register value and see the same clear/enable/hold; "
     "ready is the descrambler's source.ready handed back through the pass-through sink.ready",
     "words are four symbols wide (USBRawSuperSpeedStream default)",
+    "phy_tx_descrambles: outside electrical idle with sink.ready high (true from the second cycle after reset, "
+    "ready_after_first_cycle); can_send_skp only together with logical idle (C33: link_layer_idle_mux_guarantees_env); "
+    "the link layer sends no SKP word of its own; the far end starts from the transmitter's register value and uses "
+    "the same enable_scrambling",
 ]
-PARTIAL = ""
+PARTIAL = ("scrambling.py is covered in full.  For the wiring in physical/layer.py the transmit half is modelled "
+           "(Scrambler + CTCSkipInserter models composed with hold = sending_skip, co-simulated) and proved "
+           "(phy_tx_descrambles); the receive half (CTCSkipRemover -> RxWordAligner -> Descrambler -> RxPacketAligner: "
+           "the descrambler does not move over removed SKP symbols because they leave valid gaps) is covered by the "
+           "phyrx monitor on the real gateware only, there is no Lean model of that composition.  After electrical "
+           "idle / in the first cycle after reset one word is put on the wire without being transferred "
+           "(sink.ready low; C33 observation 2): the theorem and the monitor follow the code there (keystream not "
+           "advanced), a far-end receiver would need the next COM to resynchronise.")
 TRUSTED_EXTRA = [
     "reference LFSR (usbref.usb3_lfsr_bytes, XorAlg.keystream with polynomial 0039h) checked against the first 16 "
     "scrambler output bytes tabulated in USB 3.2 Appendix B",
@@ -73,6 +99,17 @@ def gen_cases(tier, rng):
         out.append({"kind": "pair", "iv": iv if iv is not None else (rng.bits(16) or 1), "seed": rng.u64(), "k": k,
                     "cycles": cyc})
     out.append({"kind": "phy"})
+    # the wiring in physical/layer.py: transmit half (co-simulated + far-end monitor), receive half (monitor)
+    ntx = {"quick": 2, "widen": 5, "thorough": 12}.get(tier, 2)
+    nrx = {"quick": 2, "widen": 4, "thorough": 10}.get(tier, 2)
+    ltx = {"quick": 1500, "widen": 2400, "thorough": 4000}.get(tier, 1500)
+    lrx = {"quick": 700, "widen": 1000, "thorough": 2500}.get(tier, 700)
+    for mode in TX_MODES:
+        for _ in range(ntx):
+            out.append({"kind": "phytx", "mode": mode, "seed": rng.u64(), "len": ltx})
+    for mode in RX_MODES:
+        for _ in range(nrx):
+            out.append({"kind": "phyrx", "mode": mode, "seed": rng.u64(), "len": lrx})
     return out
 
 
@@ -288,7 +325,295 @@ def run_phy(desc):
                 lean=False)
 
 
-RUNNERS = {"lfsr": run_lfsr, "scr": run_scr, "pair": run_pair, "phy": run_phy}
+
+# ------------------------------------------------------------------ the wiring in physical/layer.py
+# Reused from C33 (read-only): the link-layer traffic grammar (bursts of link commands / header / data packets /
+# training sets / random words interleaved with logical idle, can_send_skp = 1 exactly on the idle words).
+from harness.props import c33 as C33   # noqa: E402
+
+SKPW = (0x3C3C3C3C, 0xF)
+IDLE = (0, 0)
+COM4 = (0xBCBCBCBC, 0xF)
+TX_MODES = ["skp-mix", "bursts", "skp-mix", "boundary", "enable-toggle", "saturated", "mostly-idle",
+            "electrical-idle", "training"]
+RX_MODES = ["skp-words", "skp-sets", "skp-any", "dense", "no-skp"]
+
+
+def scr_word(d, c, en, key):
+    out = 0
+    for i in range(4):
+        b = (d >> (8 * i)) & 0xFF
+        if en and not (c >> i) & 1:
+            b ^= key[i]
+        out |= b << (8 * i)
+    return out
+
+
+def is_com0(d, c):
+    return (d & 0xFF) == COM and (c & 1) == 1
+
+
+def traffic_skp_mix(rng, L):
+    """Long non-idle stretches (around 177 words = two SKP ordered sets owed, and its multiples) followed by short
+    idle / data mixes: the SKP word replaces the first idle word offered after it falls due, at every alignment,
+    and is followed by idle, pure data, K, mixed, COM-first or framing words."""
+    rows = []
+    while len(rows) < L:
+        n = rng.choice([rng.range(150, 200), rng.range(170, 185), rng.range(350, 372), rng.range(20, 120),
+                        rng.range(1, 12), rng.range(1, 12)])
+        for _ in range(n):
+            if rng.chance(85):
+                rows.append((rng.bits(32), 0, 0))
+            elif rng.chance(50):
+                rows.append((0, 0, 0))                 # looks like logical idle, is packet data
+            else:
+                rows.append(rand_word(rng) + (0,))
+        for _ in range(rng.range(1, 5)):
+            rows += [(0, 0, 1)] * rng.choice([1, 1, 1, 2, 3, 9])
+            k = rng.choice(["data", "data", "k", "mixed", "hp", "zeros", "com0", "none"])
+            if k == "data":
+                rows += [(rng.bits(32), 0, 0)] * 1 + [(rng.bits(32), 0, 0) for _ in range(rng.range(0, 3))]
+            elif k == "k":
+                rows.append((0xF7FDFDFD, 0xF, 0))
+            elif k == "mixed":
+                rows.append(rand_word(rng) + (0,))
+            elif k == "hp":
+                rows += [(d, c, 0) for d, c in C33._burst(rng, "hp")]
+            elif k == "zeros":
+                rows += [(0, 0, 0)] * rng.range(1, 3)
+            elif k == "com0":
+                rows.append((0xBC | (rng.bits(24) << 8), 1, 0))
+    return rows[:L]
+
+
+def stim_phytx(mode, rng, L):
+    """rows: sink.valid sink.data sink.ctrl can_send_skp enable_scrambling tx_electrical_idle"""
+    if mode in ("bursts", "mostly-idle", "boundary", "saturated", "training"):
+        rows = C33.stim_phy(mode, rng, L)
+        if rng.chance(70):
+            for r in rows:
+                r[4] = 1
+        return rows
+    scr = 0 if (mode == "skp-mix" and rng.chance(15)) else 1
+    rows = []
+    eidle, left = 0, 0
+    if mode == "electrical-idle":
+        eidle, left = 1, rng.range(1, 40)
+    tr = traffic_skp_mix(rng, L) if (mode == "skp-mix" or rng.chance(50)) else C33.make_traffic("bursts", rng, L)
+    for (d, c, idle) in tr:
+        if mode == "enable-toggle" and rng.chance(2):
+            scr ^= 1
+        if mode == "electrical-idle":
+            if left == 0:
+                eidle = 0
+                if rng.chance(1):
+                    eidle, left = 1, rng.choice([1, 1, 2, 3, 10])
+            else:
+                left -= 1
+        # sink.valid is not used by the physical layer (scrambler.sink.valid is tied to 1)
+        rows.append([1 if rng.chance(90) else 0, d, c, idle, scr, eidle])
+    return rows
+
+
+def monitor_phytx(stim, rows):
+    """The property at the PHY's transmit pins, seen from the far end: the word on tx_data/tx_datak one cycle after
+    the link layer offered a word is either that word scrambled with the reference keystream at the position
+    'number of words transferred since the restart' (D symbols XOR key bytes, K symbols as they are), or a SKP word
+    standing in for a logical-idle word the link layer allowed to be replaced; the keystream does not move over a
+    SKP word (nor over a word that was not transferred: sink.ready low) and restarts after a word with COM in
+    symbol 0.  Where the SKP words are is read off the wire, no insertion schedule is assumed."""
+    fails, tags = [], set()
+    state, synced, pos = 0xFFFF, True, 0
+    after_skp = False
+    for t in range(len(stim) - 1):
+        _v, d, c, can, scr, _e = stim[t]
+        rdy = rows[t][2]
+        nd, nk = rows[t + 1][0], rows[t + 1][1]
+        dark = stim[t + 1][5]
+        key, nxt = key_of(state)
+        exp = (scr_word(d, c, scr, key), c)
+        ins = False
+        if dark:
+            # electrical idle: the pins carry nothing; whether this idle word became a SKP word cannot be seen
+            tags.add("tx-electrical-idle")
+            if can and (d, c) == IDLE:
+                synced = False
+        elif synced:
+            if (nd, nk) == exp:
+                if after_skp:
+                    tags.add("word-after-skp:" + ("idle" if (d, c) == IDLE else "D" if c == 0 else
+                                                  "K" if c == 0xF else "mixed"))
+            elif (nd, nk) == SKPW and can and (d, c) == IDLE:
+                ins = True
+                tags.add("skp-inserted" + ("-back-to-back" if after_skp else ""))
+            else:
+                far = (scr_word(nd, nk, scr, key), nk)
+                if (nd, nk) == SKPW:
+                    fails.append({"cycle": t + 1, "sig": "phy-tx-word-lost", "what":
+                                  "the PHY transmits a SKP word in place of the link layer's word %08x/%x "
+                                  "(can_send_skp=%d): only logical idle offered with can_send_skp=1 may be replaced"
+                                  % (d, c, can)})
+                else:
+                    fails.append({"cycle": t + 1, "sig": "phy-tx-descramble", "what":
+                                  "PHY tx word %08x/%x: a far-end descrambler (reference LFSR register %#06x = %d words "
+                                  "transferred since the restart, SKP words not counted, enable_scrambling=%d) recovers "
+                                  "%08x/%x, but the link layer handed over %08x/%x in the cycle before (sink.ready=%d%s); "
+                                  "the correctly scrambled word is %08x/%x"
+                                  % (nd, nk, state, pos, scr, far[0], far[1], d, c, rdy,
+                                     ", the word before was an inserted SKP word" if after_skp else "", exp[0], exp[1])})
+                break
+        elif (nd, nk) == SKPW and can and (d, c) == IDLE:
+            ins = True
+        after_skp = ins
+        if is_com0(d, c):
+            state, synced, pos = 0xFFFF, True, 0
+            tags.add("restart-by-COM")
+        elif rdy and not ins:
+            state, pos = nxt, pos + 1
+            tags.add("transfer")
+        elif not rdy:
+            tags.add("not-transferred")
+        tags.add("scrambling=%d" % scr)
+    return fails, tags
+
+
+NAMES_TX_IN = ["sink.valid", "sink.data", "sink.ctrl", "can_send_skp", "enable_scrambling", "tx_electrical_idle"]
+NAMES_TX_OUT = ["phy.tx_data", "phy.tx_datak", "sink.ready"]
+
+
+def run_phytx(desc):
+    """Transmit half of the real USB3PhysicalLayer with a PIPEInterface(width=4): co-simulated against the composed
+    Lean model (Scrambler + CTCSkipInserter, hold = sending_skip) and watched by the far-end monitor."""
+    from luna.gateware.usb.usb3.physical.layer import USB3PhysicalLayer
+    from luna.gateware.interface.pipe import PIPEInterface
+    phy = PIPEInterface(width=4)
+    dut = USB3PhysicalLayer(phy=phy, sync_frequency=50e6)
+    mode = desc.get("mode", "replay")
+    stim = desc.get("stimulus") or stim_phytx(mode, Rng(desc["seed"]), desc.get("len", 1600))
+    rows = sim.run_cycles(dut, [dut.sink.valid, dut.sink.data, dut.sink.ctrl, dut.can_send_skp, dut.enable_scrambling,
+                                dut.tx_electrical_idle],
+                          [phy.tx_data, phy.tx_datak, dut.sink.ready], stim, domain="ss", extra_clocks={"sync": 1e-6})
+    fails, tags = monitor_phytx(stim, rows)
+    tags |= {"phytx", "phytx-mode=" + mode}
+    return Case([3, 0xFFFF, 0xFFFF], stim, rows, fails, sorted(tags), desc, NAMES_TX_IN, NAMES_TX_OUT)
+
+
+# ---- receive half
+RX_K = [0xFD, 0x5C, 0x7C, 0x1C, 0x9C, 0xDC]      # K symbols used in random words: no COM / SKP / SHP / SLC / EPF, so the
+#                                                   two aligners (C34/C35) see framing only where the grammar puts it
+
+
+def rx_link_words(rng, n):
+    """The far end's link-layer word stream: a few idle words, a training-set start (COM COM COM COM: puts both
+    LFSRs at FFFFh), then packets, link commands, idle, random D/K mixes, further COMs."""
+    words = [IDLE] * rng.range(0, 4) + [COM4, (0x4A4A0000 | (rng.below(256) << 8), 0)]
+    while len(words) < n:
+        kind = rng.weighted([(4, "data"), (3, "idle"), (2, "hp"), (1, "lc"), (2, "dp"), (1, "ts"), (1, "com0"),
+                             (3, "mixed"), (1, "allk")])
+        if kind == "data":
+            new = [(rng.bits(32), 0) for _ in range(rng.range(1, 40))]
+        elif kind == "idle":
+            new = [IDLE] * rng.range(1, 30)
+        elif kind in ("hp", "lc", "dp", "ts"):
+            new = C33._burst(rng, kind)
+        elif kind == "com0":
+            new = [(0xBC | (rng.bits(24) << 8), 1)]
+        elif kind == "allk":
+            new = [(sum(rng.choice(RX_K) << (8 * i) for i in range(4)), 0xF)]
+        else:
+            new = []
+            for _ in range(rng.range(1, 8)):
+                c = rng.below(16)
+                d = sum((rng.choice(RX_K) if (c >> i) & 1 else rng.choice([rng.bits(8), rng.bits(8), COM, 0x3C])) << (8 * i)
+                        for i in range(4))
+                new.append((d, c))
+        if words[-1] == COM4 and is_com0(*new[0]):
+            words.append((rng.bits(32), 0))        # five COMs in a row would re-align the receiver (C34)
+        words += new
+    return words[:n]
+
+
+def stim_phyrx(mode, rng, L):
+    """-> (rows [rx_data, rx_datak, enable_scrambling], link words).  The link words are scrambled with the
+    reference LFSR exactly as the property describes the transmitter (key byte per symbol, K symbols untouched,
+    restart after a word with COM in symbol 0), then SKP symbols are inserted into the symbol stream."""
+    en = 0 if rng.chance(20) else 1
+    words = rx_link_words(rng, L)
+    state = 0xFFFF
+    syms = []
+    p = {"skp-words": 4, "skp-sets": 6, "skp-any": 8, "dense": 45, "no-skp": 0}[mode]
+    for (d, c) in words:
+        key, nxt = key_of(state)
+        sd = scr_word(d, c, en, key)
+        state = 0xFFFF if is_com0(d, c) else nxt
+        if mode == "skp-words" and rng.chance(p):
+            syms += [(0x3C, 1)] * (4 * rng.choice([1, 1, 1, 2]))
+        for i in range(4):
+            if mode in ("skp-sets", "skp-any", "dense") and rng.chance(p):
+                syms += [(0x3C, 1)] * (2 * rng.choice([1, 1, 2]) if mode == "skp-sets" else rng.range(1, 9))
+            syms.append(((sd >> (8 * i)) & 0xFF, (c >> i) & 1))
+    while len(syms) % 4:
+        syms.append((0x3C, 1))
+    rows = []
+    for j in range(0, len(syms), 4):
+        rows.append([sum(syms[j + i][0] << (8 * i) for i in range(4)), sum(syms[j + i][1] << i for i in range(4)), en])
+    rows += [[0x3C3C3C3C, 0xF, en]] * 2
+    return rows, words
+
+
+def run_phyrx(desc):
+    """Receive half of the real USB3PhysicalLayer: PHY rx pins -> CTCSkipRemover -> RxWordAligner -> Descrambler ->
+    RxPacketAligner -> source.  Monitor only: the valid words leaving `source` after the first COM-first word must be
+    the far end's link words after its first COM-first word, in order — i.e. the descrambler's keystream did not move
+    over the removed SKP symbols and moved once per delivered word."""
+    from luna.gateware.usb.usb3.physical.layer import USB3PhysicalLayer
+    from luna.gateware.interface.pipe import PIPEInterface
+    phy = PIPEInterface(width=4)
+    dut = USB3PhysicalLayer(phy=phy, sync_frequency=50e6)
+    mode = desc.get("mode", "replay")
+    if desc.get("words"):
+        words = [tuple(w) for w in desc["words"]]
+        stim = desc["stimulus"]
+    else:
+        stim, words = stim_phyrx(mode, Rng(desc["seed"]), desc.get("len", 800))
+        stim = desc.get("stimulus") or stim          # a replay carries the (possibly shortened) pin trace
+    fed = sum(4 - bin(r[1] & sum(1 << i for i in range(4) if (r[0] >> (8 * i)) & 0xFF == 0x3C)).count("1")
+              for r in stim) // 4                     # link words completely contained in the pin trace
+    words = words[:fed]
+    rows = sim.run_cycles(dut, [phy.rx_data, phy.rx_datak, dut.enable_scrambling],
+                          [dut.source.valid, dut.source.data, dut.source.ctrl], stim, domain="ss",
+                          extra_clocks={"sync": 1e-6})
+    got = [(t, d, c) for t, (v, d, c) in enumerate(rows) if v]
+    fails, tags = [], {"phyrx", "phyrx-mode=" + mode, "scrambling=%d" % stim[0][2]}
+    i0 = next((i for i, w in enumerate(words) if is_com0(*w)), None)
+    j0 = next((j for j, (_t, d, c) in enumerate(got) if is_com0(d, c)), None)
+    if i0 is None:
+        tags.add("phyrx-no-com")
+    elif j0 is None:
+        fails.append({"cycle": len(rows) - 1, "sig": "phy-rx-starved", "what":
+                      "the far end's COM-first word never leaves USB3PhysicalLayer.source (%d valid words seen)" % len(got)})
+    else:
+        exp, out = words[i0 + 1:], got[j0 + 1:]
+        for k, ((t, d, c), w) in enumerate(zip(out, exp)):
+            if (d, c) != w:
+                fails.append({"cycle": t, "sig": "phy-rx-descramble", "what":
+                              "word %d after the first COM leaves the physical layer as %08x/%x, the far end sent "
+                              "%08x/%x (reference-scrambled, enable_scrambling=%d, SKP symbols inserted: mode %s)"
+                              % (k, d, c, w[0], w[1], stim[0][2], mode)})
+                break
+        else:
+            if len(out) < len(exp) - 6:
+                fails.append({"cycle": len(rows) - 1, "sig": "phy-rx-starved", "what":
+                              "only %d of the %d words after the first COM left the physical layer" % (len(out), len(exp))})
+        tags.add("phyrx-words-compared>=%d" % (100 * (min(len(out), len(exp)) // 100)))
+        nskp = sum(bin(r[1] & sum(1 << i for i in range(4) if (r[0] >> (8 * i)) & 0xFF == 0x3C)).count("1") for r in stim)
+        tags.add("phyrx-skp-symbols" if nskp > 8 else "phyrx-no-skp")
+    return Case([9, 0, 0], stim, rows, fails, sorted(tags), desc, ["phy.rx_data", "phy.rx_datak", "enable_scrambling"],
+                ["source.valid", "source.data", "source.ctrl"], lean=False)
+
+
+RUNNERS = {"lfsr": run_lfsr, "scr": run_scr, "pair": run_pair, "phy": run_phy, "phytx": run_phytx,
+           "phyrx": run_phyrx}
 
 
 def run_case(desc):
